@@ -138,9 +138,9 @@ PROPS = {
     },
     'C19': {
         'title': 'Abandoned dispatch is fail-stop; completed dispatch never poisons',
-        'level_text': "Proof (C19.returning_handle_usable, panic_poisons, abandon_poisons, poisoned_ops, never_polled_intact, abandoned_drops): every handle that returns leaves the wrapper in a declared state; a handle that panics or is abandoned at any hook index leaves inner = None, after which current_state and handle panic without running hooks, readers return None, setters return WrongState{actual <extracted>}, into_<s> returns Err(self) and no typed machine; an unpolled future leaves the wrapper intact; context and payload are dropped exactly once.",
+        'level_text': "Proof (C19.returning_handle_usable, panic_poisons, abandon_poisons, poisoned_ops, never_polled_intact, abandoned_drops): every handle that returns leaves the wrapper in a declared state; a handle that panics or is abandoned at any hook index leaves inner = None, after which current_state and handle panic without running hooks, readers return None, setters return WrongState{actual <extracted>}, into_<s> returns Err(self) and no typed machine; an unpolled future leaves the wrapper intact; context and payload are dropped exactly once. C19Hist.fail_stop_history / poisoned_forever: along every history of dispatches under ARBITRARY hooks (panicking, refusing, vetoing, writing), either every dispatch returns and the wrapper still holds a machine in a declared leaf, or exactly one dispatch panics, all before it returned, and every later dispatch panics with the invalid-state message without running a hook - the wrapper is poisoned for good.",
         'level_note': 'Abandonment point n = the future dropped while hook n is pending / hook n panicking: validated by T3 abandon (panic at each hook index under catch_unwind; async future dropped at each suspension point; then every public operation). Ties: T2 regions HD CS DA EX AB GC BC AC AA.',
-        'modules': ['SMV.Props.C19'],
+        'modules': ['SMV.Props.C19', 'SMV.Props.C19Hist'],
         'regions': ['HD', 'CS', 'DA', 'EX', 'AB', 'GC', 'BC', 'AC', 'AA'],
         't3': ['abandon', 'walk'],
         'design_ref': 'DESIGN.md §7 C19',
